@@ -18,6 +18,8 @@ pub struct FaultStats {
     pub switches: u64,
     pub handoffs: u64,
     pub corrupt: u64,
+    #[serde(default)]
+    pub reenter: u64,
 }
 
 impl FaultStats {
@@ -33,6 +35,7 @@ impl FaultStats {
         self.switches += o.switches;
         self.handoffs += o.handoffs;
         self.corrupt += o.corrupt;
+        self.reenter += o.reenter;
     }
     pub fn any_fault(&self) -> bool {
         self.short + self.eintr + self.scribble + self.hard_error + self.cut + self.preempt + self.switches + self.corrupt > 0
@@ -93,6 +96,10 @@ impl<'a> io::Read for SimReader<'a> {
                 _ => io::Error::new(io::ErrorKind::Interrupted, "simulated EINTR"),
             });
         }
+        if let ReadStep::Reenter(_) = step {
+            self.ctx.with_stats(|s| s.reenter += 1);
+            crate::exec::nested_call();
+        }
         let remaining = self.limit - self.pos;
         if remaining == 0 {
             if let Some((_, kind)) = self.plan.err_at.filter(|&(e, _)| e == self.limit) {
@@ -109,7 +116,7 @@ impl<'a> io::Read for SimReader<'a> {
         }
         let (n, scribble) = match step {
             ReadStep::Full => (u32::MAX, false),
-            ReadStep::Data(n) => (n.max(1), false),
+            ReadStep::Data(n) | ReadStep::Reenter(n) => (n.max(1), false),
             ReadStep::Scribble(n) => (n.max(1), true),
             ReadStep::Eintr => unreachable!(),
         };
